@@ -35,7 +35,7 @@ text_s = st.lists(st.tuples(st.sampled_from(SEP), st.sampled_from(W)), max_size=
     .map(lambda l: ''.join(s + w for s, w in l))
 lhs_w = st.sampled_from([w for w in W if w not in ('&', '#')])
 rule_s = st.tuples(st.lists(lhs_w, min_size=0, max_size=3),
-                   st.lists(st.sampled_from(['a', 'Q', 'so', 'RR', 'b', '&', 'dass', '.', 'é']), max_size=3),
+                   st.lists(st.sampled_from(['a', 'Q', 'so', 'RR', 'b', '&', 'dass', '.', 'é', '\\', '\\n', '\\1', '\\g<0>', 'x\\', '$0']), max_size=3),
                    st.sampled_from(['', ' # comment a & b', '  ', '# a & b']),
                    st.sampled_from([' ', '  ', '\t']))
 
@@ -134,7 +134,7 @@ doc_item = st.one_of(
 )
 doc_s = st.lists(st.tuples(st.sampled_from([' ', '\n', '  ', '\n\n', ' \n']), doc_item), min_size=1, max_size=12)
 rule_doc = st.tuples(st.lists(st.sampled_from(['so', 'dass', 'a', 'b', 'ab', 'Haus', 'x.', 'é', 'B-B-B', '0']), min_size=1, max_size=3),
-                     st.lists(st.sampled_from(['Q', 'sodass', 'a', 'RR', 'é']), max_size=3),
+                     st.lists(st.sampled_from(['Q', 'sodass', 'a', 'RR', 'é', 'so', 'dass', '\\n', '\\0']), max_size=3),
                      st.just(''), st.just(' '))
 
 
@@ -204,6 +204,8 @@ def run_shard(ctx):
                 i = draw(st.integers(0, len(ws) - 1))
                 n = draw(st.integers(1, 3))
                 r = (ws[i:i + n],) + r[1:]
+                if draw(st.integers(0, 5)) == 0:
+                    r = (r[0], list(r[0])) + r[2:]      # identity rule: only normalises white space
             rules.append(r)
         pos = draw(st.lists(st.integers(1, 60), min_size=len(txt), max_size=len(txt)))
         return txt, rules, pos
